@@ -1629,7 +1629,8 @@ package stun
 //@   requires m != nil && (c == nil || ClientReady(c))
 //@   assigns mem(c.t), gmap(held)[region(c)], ghost(now_last), ghost(wr_n), gmapa(wr_data), gmap(wr_len), gmap(wr_errt), gmap(wr_errv), ghost(ag_n), gmap(ag_op), gmapa(ag_id), gmap(ag_dl), gmap(ag_errt), gmap(ag_errv)
 //@   allocates
-//@   ensures NoEvent() && AgentOps(0)
+//@   ensures NoEvent() && AgentOps(0) && ghost(wr_n) <= old(ghost(wr_n)) + 1
+//@   ensures c == nil || c.c == nil || c.a == nil || c.close == nil ==> result == ErrClientNotInitialized && Writes(0)
 //@   ensures c != nil && c.c != nil && c.a != nil && c.close != nil && old(c.closed) ==> result == ErrClientClosed && Writes(0) && SameClientTable(c)
 
 //@ func (*Client).SetRTO
@@ -1687,3 +1688,21 @@ package stun
 //@   loop 0
 //@     assigns s.processed
 //@     invariant CwhOK(s) && gmap(held)[errval(s.cond.L)] == 1
+
+// Do: Start with a pooled wait handler, then wait for its mark. (What "waiting" buys is in HandleEvent / wait above.)
+//@ func (*Client).Do->(*sync.Pool).Get(p)
+//@   pure
+//@   allocates
+//@   resulttype *callbackWaitHandler
+//@   ensures result != nil && fresh(result) && CwhOK(result) && !result.processed && result.callback == nil && gmap(held)[errval(result.cond.L)] == 0
+//@ func (*Client).Do
+//@   safety C10 C15
+//@   props C10 C15
+//@   requires m != nil && (c == nil || ClientReady(c))
+//@   assigns mem(c.t), gmap(held), ghost(now_last), ghost(wr_n), gmapa(wr_data), gmap(wr_len), gmap(wr_errt), gmap(wr_errv), ghost(ag_n), gmap(ag_op), gmapa(ag_id), gmap(ag_dl), gmap(ag_errt), gmap(ag_errv)
+//@   allocates
+//@   ensures NoEvent() && ghost(wr_n) <= old(ghost(wr_n)) + 1
+//@   ensures c == nil || c.c == nil || c.a == nil || c.close == nil ==> result == ErrClientNotInitialized && Writes(0) && AgentOps(0)
+//@   ensures Init(c) && old(c.closed) ==> result == ErrClientClosed && Writes(0) && AgentOps(0) && SameClientTable(c)
+//@   ensures Init(c) && !old(c.closed) && f != nil && old(haskey(c.t, m.TransactionID)) ==> result == ErrTransactionExists && Writes(0) && SameClientTable(c)
+//@   ensures result == nil && f != nil && c != nil ==> Registered(c, m.TransactionID, c.t[m.TransactionID]) && c.t[m.TransactionID].h != nil && Writes(1) && Wrote(old(ghost(wr_n)), m.Raw)
